@@ -45,6 +45,7 @@ type ProjectRunner struct {
 	logger            pclog.PcLogger
 	waitGroup         sync.WaitGroup
 	exitCode          int
+	exitCodeOnce      sync.Once
 	projectState      *types.ProjectState
 	mainProcess       string
 	mainProcessArgs   []string
@@ -198,16 +199,26 @@ func (p *ProjectRunner) waitIfNeeded(process *types.ProcessConfig) error {
 func (p *ProjectRunner) onProcessEnd(exitCode int, procConf *types.ProcessConfig) {
 	if (exitCode != 0 && procConf.RestartPolicy.Restart == types.RestartPolicyExitOnFailure) ||
 		procConf.RestartPolicy.ExitOnEnd {
+		p.setProjectExitCode(exitCode)
 		_ = p.ShutDownProject()
-		p.exitCode = exitCode
 	}
 }
 
 func (p *ProjectRunner) onProcessSkipped(procConf *types.ProcessConfig) {
 	if procConf.RestartPolicy.ExitOnSkipped {
+		p.setProjectExitCode(1)
 		_ = p.ShutDownProject()
-		p.exitCode = 1
 	}
+}
+
+// setProjectExitCode records the exit code of the process that triggered the
+// project shutdown. Only the first trigger counts: processes terminated by
+// that shutdown report their own (signal) exit codes afterwards and must not
+// overwrite it.
+func (p *ProjectRunner) setProjectExitCode(exitCode int) {
+	p.exitCodeOnce.Do(func() {
+		p.exitCode = exitCode
+	})
 }
 
 func (p *ProjectRunner) initProcessStates() {
